@@ -593,4 +593,88 @@ def run(ctx):
     ctx.floor(R3, 2 * 4)
     ctx.floor(R4, 2 * 10)
     ctx.floor(R5, 2 * 4)
+    # ---------------- R10 forwarding, whole loops and the deadline of what is stored
+    R10 = ctx.rule('C07.R10', 'cache_interface plumbing: rise / clear reach the backend on every path past the no-cache test; the loops that hand fetched triggers to the page, record supplied triggers and '
+                              'notify recorders visit their whole container; store records triggers only (and always) when the caller did not say notriggers; deadtime(sec) is now + sec for sec >= 0 and the '
+                              '"never" constant for sec < 0 (E3, time() replaced)')
+    for (nm_, be) in (('rise', 'rise'), ('clear', 'clear')):
+        f_ = P.fn(CI + nm_)
+        fw = [i for i in f_.calls() if (f_.bcallee(i) or '').endswith('base_cache::' + be)]
+        g_nc = q.call_gate(f_, lambda i: q.short_of(f_.callee(i) or '') == 'nocache', False)
+        okf = len(fw) == 1 and (not f_.params or [f_.ref_of(x) for x in f_.args(fw[0])] == [q.param_by_index(f_, 0)]) and bool(g_nc)
+        if okf:
+            for (b_, s_, lab_, tag_) in g_nc:
+                if f_.exit in f_.reachable_blocks(start=s_, cut_blocks=[f_.point_of(fw[0])[0]]):
+                    okf = False
+        ctx.check(okf, R10, '%s:reaches-the-backend' % nm_, 'the call does not reach base_cache::%s with its argument whenever a cache is configured' % be, f_.where)
+    at_ = P.fn(CI + 'add_trigger')
+    for (f_, what, cont_is) in ((fe, 'fetched-triggers', lambda f, j: f.obj(j) is not None and (f.ref_of(f.obj(j)) or '').startswith('v:')),
+                                (st, 'supplied-triggers', lambda f, j: f.obj(j) is not None and f.ref_of(f.obj(j)) == q.param_by_index(st, 2)),
+                                (at_, 'recorders', lambda f, j: f.obj(j) is not None and model.strip_targs(f.ref_of(f.obj(j)) or '').endswith('cache_interface::recorders_'))):
+        ls_ = [L for L in q.loops(f_)]
+        ctx.check(len(ls_) == 1 and q.whole_loop(f_, ls_[0], cont_is), R10, '%s:%s:whole-container' % (f_.short, what), 'the loop over the %s does not visit every element' % what.replace('-', ' '), f_.where)
+    notr_s = q.param_by_index(st, 4)
+    adds_s = [i for i in st.calls() if st.bcallee(i) == CI + 'add_trigger']
+    g_rec = st.gate_edges(lambda atom, pol: st.ref_of(atom) == notr_s and pol is False)
+    g_norec = st.gate_edges(lambda atom, pol: st.ref_of(atom) == notr_s and pol is True)
+    key_add = [i for i in adds_s if st.ref_of(st.args(i)[0]) == q.param_by_index(st, 0)]
+    oks = bool(g_rec) and bool(adds_s) and all(st.only_through(i, g_rec) for i in adds_s) and len(key_add) == 1
+    if oks:
+        for (b_, s_, lab_, tag_) in g_rec:
+            if st.exit in st.reachable_blocks(start=s_, cut_blocks=[st.point_of(key_add[0])[0]]):
+                oks = False
+    ctx.check(oks, R10, 'store:records-exactly-when-not-notriggers', 'key / triggers are recorded as page dependencies although notriggers was given, or not recorded although it was not', st.where)
+    dts = [g for g in P.fns.values() if g.short == 'deadtime' and g.file.endswith('/src/cache_interface.cpp') and g.body is not None]
+    ctx.require(len(dts) == 1, 'C07.R10: deadtime() not found')
+    from vlib import absint as _a10
+    NOW = 1700000000
+
+    def h_time(it, fn_, i_, env_):
+        a_ = fn_.args(i_)
+        if a_ and fn_.const_value(a_[0]) != 0:
+            it.store(it.lval(fn_, fn_.N(fn_.strip(a_[0]))['ch'][0], env_) if fn_.N(fn_.strip(a_[0]))['k'] == 'UnaryOperator' else ('elem', it.rvalue(fn_, a_[0], env_)), _a10.AV.const(NOW))
+        return _a10.AV.const(NOW)
+    bad = []
+    never = None
+    for sec in (-5, -1):
+        it = _a10.Interp(P, [], hooks={'time': h_time})
+        rv = it.call_fn(dts[0], [_a10.AV.const(sec)])
+        if not (isinstance(rv, _a10.AV) and rv.is_const() and rv.lo > NOW + 10 * 365 * 86400 * 10):
+            bad.append('deadtime(%d) = %r, expected a moment that never comes' % (sec, rv))
+        never = rv.lo if isinstance(rv, _a10.AV) and rv.is_const() else None
+    for sec in (0, 1, 59, 3600, 86400 * 365):
+        it = _a10.Interp(P, [], hooks={'time': h_time})
+        rv = it.call_fn(dts[0], [_a10.AV.const(sec)])
+        if not (isinstance(rv, _a10.AV) and rv.is_const() and rv.lo == NOW + sec):
+            bad.append('deadtime(%d) = %r at time %d' % (sec, rv, NOW))
+    ctx.check(not bad, R10, 'deadtime:now-plus-seconds:negative-means-never', '; '.join(bad[:2]), dts[0].where)
+    dcalls = [(f_, i) for f_ in P.fns.values() if f_.file.endswith('/src/cache_interface.cpp') and f_.body is not None for i in f_.calls() if (f_.bcallee(i) or '').endswith('base_cache::store')]
+    okd = len(dcalls) >= 2 and all(any(f_.N(j).get('callee') == dts[0].id for j in f_.calls(f_.args(i)[3])) and any(x.startswith('p:') and 'timeout' in x for x in f_.subtree_refs(f_.args(i)[3])) for (f_, i) in dcalls)
+    ctx.check(okd, R10, 'store/store_page:deadline-is-deadtime(timeout)', 'an entry is stored with a deadline that is not deadtime(timeout) of the caller\'s timeout', st.where)
+    # recorders keep what they are told and hand it out; registration both ways; the frame wrappers forward
+    TR = 'cppcms::triggers_recorder::'
+    ra = P.fn(TR + 'add')
+    ins_ = [i for i in ra.calls() if q.short_of(ra.callee(i) or '') == 'insert' and ra.obj(i) is not None and model.strip_targs(ra.ref_of(ra.obj(i)) or '').endswith('triggers_recorder::triggers_') and ra.ref_of(ra.args(i)[0]) == q.param_by_index(ra, 0)]
+    ctx.check(len(ins_) == 1 and q.always_before_exit(ra, ins_), R10, 'triggers_recorder::add:keeps-the-trigger', 'a recorder drops the trigger it is told about', ra.where)
+    rd_ = P.fn(TR + 'detach')
+    sw_ = [i for i in rd_.calls() if q.short_of(rd_.callee(i) or '') in ('swap', 'operator=') and any(model.strip_targs(x).endswith('triggers_recorder::triggers_') for x in rd_.subtree_refs(i))]
+    rets_ = [i for i in rd_.returns() if rd_.ret_value(i) is not None]
+    okd_ = len(sw_) == 1 and bool(rets_) and all(q.before(rd_, sw_[0], i_) and bool(set(x for x in rd_.subtree_refs(i_) if x.startswith('v:')) & set(x for x in rd_.subtree_refs(sw_[0]) if x.startswith('v:'))) for i_ in rets_)
+    ctx.check(okd_, R10, 'triggers_recorder::detach:hands-out-the-recorded-set', 'detach() does not return the recorded triggers', rd_.where)
+    rc_ = [g for g in P.fns.values() if g.kind == 'ctor' and (g.record or '') == 'cppcms::triggers_recorder' and g.body is not None and g.params]
+    ctx.check(bool(rc_) and any((rc_[0].bcallee(i) or '') == CI + 'add_triggers_recorder' for i in rc_[0].calls()), R10, 'triggers_recorder():registers-with-the-cache', 'a new recorder is not registered with the cache interface', rc_[0].where if rc_ else ra.where)
+    for (nm_, fld_call) in (('add_triggers_recorder', 'insert'), ('remove_triggers_recorder', 'erase')):
+        f_ = P.fn(CI + nm_)
+        ok_ = any(q.short_of(f_.callee(i) or '') == fld_call and f_.obj(i) is not None and model.strip_targs(f_.ref_of(f_.obj(i)) or '').endswith('cache_interface::recorders_') and f_.ref_of(f_.args(i)[0]) == q.param_by_index(f_, 0) for i in f_.calls())
+        ctx.check(ok_, R10, '%s:%s-into-recorders_' % (nm_, fld_call), 'the recorder set is not updated', f_.where)
+    for f_ in sorted([g for g in P.fns.values() if g.bname in (CI + 'store_frame', CI + 'fetch_frame', CI + 'store_data', CI + 'fetch_data') and g.body is not None and g.file.endswith('/src/cache_interface.cpp')], key=lambda g: g.id):
+        tg = [i for i in f_.calls() if (f_.bcallee(i) or '') in (CI + 'store', CI + 'fetch', CI + 'store_frame', CI + 'fetch_frame')]
+        okw_ = len(tg) == 1 and q.always_before_exit(f_, tg)
+        if okw_:
+            passed = [f_.ref_of(x) for x in f_.args(tg[0])]
+            mine_ = [q.param_by_index(f_, k) for k in range(len(f_.params))]
+            okw_ = [x for x in passed if x in mine_] == mine_ and (f_.ret is None or 'void' in (f_.ret or '') or any(f_.strip(f_.ret_value(i)) == tg[0] for i in f_.returns() if f_.ret_value(i) is not None))
+        ctx.check(okw_, R10, '%s/%d:forwards-its-arguments-in-order' % (f_.short, len(f_.params)), 'the wrapper does not forward all its arguments, in order, to the worker (and return its verdict)', f_.where)
+    ctx.floor(R10, 16)
+
     ctx.floor(R6, 12)
